@@ -771,6 +771,9 @@ CUTS_IMAGES = (
     ('vmdk', dict(exact_fill=True, final_newline=False, type_last=True)),
     ('iso', dict(tail=100)), ('vhdx', dict()),
     ('vhdx', dict(meta_before=3, region_before=2, item_offset=65544)),
+    # the size-carrying entry last in its table
+    ('vhdx', dict(meta_before=2, meta_after=0, region_before=1,
+                  region_after=0)),
 )
 
 
